@@ -111,6 +111,17 @@ fn check(acc: &mut Acc, reg: &Registry, s: &dyn Subject, case: &Case, flat: bool
                 if let Some(d) = handover_chain(&pred, &rp) {
                     acc.violation(format!("C11/{}/{}", d.rule, ctor(&reg.defs, s.ty())), d.rule, witness(s, &case.payload, src, &pol, &rp, json!({"what": d.detail})));
                 }
+                // a conversion failure answered stop makes the container fail there and then, whatever the following
+                // hand-over is answered: no later field is examined and no later user function runs (round 8; same
+                // local rule as C03 rule 5, here over the conversion subjects and the by-kind answer policies)
+                if let Some((rule, detail, at)) = crate::c03::field_conversion_stop_rule(reg, s, &case.payload, &rp) {
+                    acc.count("conversion_stop_rule_violations");
+                    acc.violation(
+                        format!("C11/conversion-failure-answered-stop-did-not-end-the-container/{}", ctor(&reg.defs, s.ty())),
+                        "a try_from failure was answered stop, yet the container went on (later fields examined / user functions called)",
+                        witness(s, &case.payload, src, &pol, &rp, json!({"rule": rule, "what": detail, "at": vcore::render_path(&at)})),
+                    );
+                }
                 let mut pool = allowed.clone();
                 for c in observed_calls(&rp) {
                     match pool.iter().position(|x| *x == c) {
@@ -174,7 +185,7 @@ pub fn run(ctx: &Ctx, reg: &Registry) -> i32 {
         acc,
         Finish {
             level: "exploration",
-            rule: "every subject using from / try_from (by value and by reference) / map / validate / field-level `error =` at field and container level (catalogue + generated), keep-going script, both sources; random payloads plus every single structural mutation of valid payloads (so that every subset of stages fails somewhere). Oracle: the multiset of user-function Call events (name, argument projection, location) == the reference interpreter's (each conversion exactly once per field whose intermediate value deserialized, with exactly that value; map once per field and validate once only when all fields succeeded, validate receiving the finished value and the container's location); failures appear as exactly one foreign report at the field's / container's location (report multiset, hand-over sets); the Ok value is what the functions returned; every report is received first by the error type in scope (the field-level one under `error =`) and reports of the field-level error type cross into the container's error type exactly once; no examination or report below a container after its validate ran; stage order conversions -> maps -> validate inside flat subjects. Non-trivial = at least one user function ran or a report was made.".into(),
+            rule: "every subject using from / try_from (by value and by reference) / map / validate / field-level `error =` at field and container level (catalogue + generated), keep-going script, both sources; random payloads plus every single structural mutation of valid payloads (so that every subset of stages fails somewhere). Oracle: the multiset of user-function Call events (name, argument projection, location) == the reference interpreter's (each conversion exactly once per field whose intermediate value deserialized, with exactly that value; map once per field and validate once only when all fields succeeded, validate receiving the finished value and the container's location); failures appear as exactly one foreign report at the field's / container's location (report multiset, hand-over sets); the Ok value is what the functions returned; every report is received first by the error type in scope (the field-level one under `error =`) and reports of the field-level error type cross into the container's error type exactly once; no examination or report below a container after its validate ran; stage order conversions -> maps -> validate inside flat subjects; under the by-kind answer policies a conversion failure answered stop ends its container whatever the next hand-over is answered. Non-trivial = at least one user function ran or a report was made.".into(),
             exhaustive: false,
             assumptions: vec!["the instrumented user functions are pure and their behaviour is mirrored in refmodel::vf".into()],
         },
